@@ -163,3 +163,39 @@ Proof.
   repeat f_equal; apply Qc_is_canon; reflexivity.
 Qed.
 Print Assumptions C13_example.
+
+(* ---------- constants (Model/C13_const.v) ---------- *)
+From PV Require Import Model.C13_const.
+
+(* Variable level: attributes that mention constants evaluate to the declared expression at the parameters
+   and the constants' resolved values (instance of C13_variable_attributes on the extended valuation) *)
+Theorem C13_variable_attributes_constants (M : model) (cs : list aexp) (p : list Qc) :
+  model_wf M = true -> var_attrs_c M cs p = Some (spec_metadata (p ++ cvals cs p) M).
+Proof. intros W. exact (var_attrs_spec M (p ++ cvals cs p) W). Qed.
+Print Assumptions C13_variable_attributes_constants.
+
+(* Function level, carve-out "no attribute mentions a constant" (exactly the complement of the recorded
+   finding's class): the metadata function exists and reports the declared attributes *)
+Theorem C13_values_no_constants (rb : bool) (n : nat) (M : model) (p : list Qc) :
+  no_constants n M = true ->
+  model_wf M = true -> safe_ok p M = true -> (rb = true -> affine_ok M = true) ->
+  metadata_fn rb n M p = Some (spec_metadata p M).
+Proof. intros C W S A. unfold metadata_fn. rewrite C. exact (metadata_spec rb M p W S A). Qed.
+Print Assumptions C13_values_no_constants.
+
+(* the recorded finding: `constant Real c = 2; Real x(max = c);` (no parameter, c = symbol 0) is a
+   well-formed model whose Variable-level max is 2 but whose metadata function cannot be built *)
+Definition cx_M : model :=
+  [[]; [Var TReal 1 (fun a => match a with AMax => DExp (Par 0) | _ => DNone end)]; []; [];
+   [Var TReal 1 (fun a => match a with AValue => DLit (LReal (Q2Qc 2)) | _ => DNone end)]].
+Theorem C13_metadata_function_constants_refuted :
+  exists (M : model) (cs : list aexp) (n : nat),
+    model_wf M = true /\
+    var_attrs_c M cs [] = Some (spec_metadata (cvals cs []) M) /\
+    (forall rb, metadata_fn rb n M [] = None).
+Proof.
+  exists cx_M, [Cst (Q2Qc 2)], 0%nat. split; [reflexivity|]. split.
+  - exact (var_attrs_spec cx_M _ eq_refl).
+  - intros rb. reflexivity.
+Qed.
+Print Assumptions C13_metadata_function_constants_refuted.
